@@ -1159,12 +1159,27 @@ func (e *Exec) foreignGlobalStore(st *State, fr *Frame, x *ssa.Store) {
 	if !e.checkLocks || e.disc != nil {
 		return
 	}
-	g := foreignGlobalOf(x.Addr)
+	g := globalOf(x.Addr)
 	if g == nil {
 		return
 	}
 	if fn := x.Parent(); fn != nil && strings.HasPrefix(fn.Name(), "init") {
 		return // package initialisation runs before any goroutine of this program
+	}
+	if strings.HasPrefix(g.Pkg.Pkg.Path(), "github.com/basecamp/kamal-proxy") {
+		// a package-level variable of this program: writing it (or the object it
+		// points to) after start-up is a write to state shared by every
+		// goroutine; no `guarded_by` declaration covers package-level variables
+		if len(st.locks) > 0 {
+			return // under some lock: not judged here
+		}
+		if fn := x.Parent(); fn == nil || fn.Pkg == nil || fn.Pkg.Pkg.Name() != "server" {
+			return // the command-line client runs one command on one goroutine and exits
+		}
+		what := e.eng.srcText(x.Pos())
+		e.oblige(st, "lockset", fmt.Sprintf("write:package-global:%s.%s:%s", g.Pkg.Pkg.Name(), g.Name(), what), False, x.Pos(), []string{"C18"},
+			fmt.Sprintf("write to package-level state (%s.%s) outside package initialisation and without any lock", g.Pkg.Pkg.Name(), g.Name()))
+		return
 	}
 	path := g.Pkg.Pkg.Path()
 	what := e.eng.srcText(x.Pos())
@@ -1175,6 +1190,15 @@ func (e *Exec) foreignGlobalStore(st *State, fr *Frame, x *ssa.Store) {
 // foreignGlobalOf: the package-level variable of another module that the
 // address is (or is reached through), or nil.
 func foreignGlobalOf(v ssa.Value) *ssa.Global {
+	g := globalOf(v)
+	if g == nil || strings.HasPrefix(g.Pkg.Pkg.Path(), "github.com/basecamp/kamal-proxy") {
+		return nil
+	}
+	return g
+}
+
+// globalOf: the package-level variable the address is (or is reached through).
+func globalOf(v ssa.Value) *ssa.Global {
 	var g *ssa.Global
 	for depth := 0; depth < 8 && g == nil; depth++ {
 		switch a := v.(type) {
@@ -1196,9 +1220,6 @@ func foreignGlobalOf(v ssa.Value) *ssa.Global {
 		}
 	}
 	if g == nil || g.Pkg == nil || g.Pkg.Pkg == nil {
-		return nil
-	}
-	if strings.HasPrefix(g.Pkg.Pkg.Path(), "github.com/basecamp/kamal-proxy") {
 		return nil
 	}
 	return g
